@@ -61,7 +61,9 @@ def cfg_key(state):
 
 
 SAMPLE_QUICK = {"RiemannGen": 96}      # expensive families: a seeded sample of the enumerated campaign in the quick tier
-SAMPLE_THOROUGH = {"RiemannGen": 1200}  # 36 450 configurations x 3 s: the thorough tier takes a larger seeded sample
+# thorough tier: the Riemann lattice has 36 450 states x 2 times; the general-EOS solver (3 s per solve) gets a seeded sample of 1 200, the
+# closed-form solver one of 12 000 (the whole lattice is 1.5 h per property, most of it trace validation of 4 million events)
+SAMPLE_THOROUGH = {"RiemannGen": 1200, "RiemannIG": 12000}
 
 
 def scan_collect(prop, prefixes, camp_driver, tier, verdict, module="Campaign", require_patterns=None, groups=None):
